@@ -17,10 +17,10 @@ CLAIMS = {
             "Every read call (root, property by name / interned id, element / key by index, length, string bytes, api-level accessors) is compared with the real provider + api crates on generated raw MessagePack (every marker, non-minimal widths, duplicate keys, sizes crossing 15/16, 31/32, 255/256, 65535/65536, 2^14-1) over histories on all handles issued so far.",
             TB + "Proved at node level (one container and its stored children); the lifting through handles (paths from a root: replacing a sub-node by one with the same status keeps the ancestors' invariant), the error direction (finish_fail) and the uniform-fuel lemma are not closed yet, so across several handles the statement rests on the correspondence run. Bump-arena address stability is not modelled (handles are paths).",
             "Lean 4 invariant + refinement lemmas over a hand-written model + differential correspondence over documents x histories", "§4 C01"),
-    "C02": ("Kernel-checked theorems about the writer model (a rejected call — including a rejected string write with its copy — adds no byte; "
-            "finalisation hands out bytes only in the completed state) tied to provider/src/write.rs + api glue by byte-for-byte differential "
-            "correspondence of the output after every call (all ten operations, both levels, sizes crossing header widths and buffer growth).",
-            TB + "The full 'decode(output) = tree written' theorem is stated in DESIGN.md and not yet closed; the correspondence run compares the output bytes with an independent decoder meanwhile.",
+    "C02": ("Kernel-checked theorems: C02_completed_output_is_the_tree (for EVERY value tree of any size/depth whose integers fit 64 bits and lengths fit 32-bit headers: the write calls describing it are all accepted from a fresh writer, end in the completed state with an empty container stack, finalisation returns the bytes, and an independent eager decoder reads those bytes back to exactly that tree with nothing left over), "
+            "C02_writes_append_exactly_the_encoding (from any value position, inside any open containers, the calls append the canonical encoding and nothing else), C02_decode_encode (decoder inverts the encoding in any byte context), a rejected call — including a rejected string write with its copy — adds no byte; finalisation hands out bytes only in the completed state. "
+            "Tied to provider/src/write.rs + api glue by byte-for-byte differential correspondence of the output after every call (all ten operations, both levels, sizes crossing header widths and buffer growth) and of the decoded document (outdoc?).",
+            TB + "Arbitrary accepted call sequences that are not the serialisation of a tree prefix (e.g. abandoned open containers) are covered by C03's grammar theorems and the correspondence, not by the decode theorem.",
             "Lean 4 theorems over a hand-written model + differential correspondence (line protocol)", "§4 C02"),
     "C03": ("Theorem C03_reject_noop (every rejected call leaves output bytes, writer position and parent stack unchanged, for every state and every operation) "
             "over a transcription of state.rs; status of every call, output snapshot and finalisation compared with the real crates on random long sequences, "
